@@ -49,7 +49,7 @@ var cfg = map[string]propCfg{
 	"C08": {Level: "exploration", QuickShards: 1, ThoroughShard: 1, Parallel: 1, QuickTimeout: 8 * time.Minute, ThorTimeout: 60 * time.Minute},
 	"C09": {Level: "exploration", QuickShards: 1, ThoroughShard: 1, Parallel: 1, QuickTimeout: 8 * time.Minute, ThorTimeout: 60 * time.Minute},
 	"C10": {Level: "exploration", QuickShards: 1, ThoroughShard: 1, Parallel: 1, QuickTimeout: 8 * time.Minute, ThorTimeout: 60 * time.Minute},
-	"C11": {Level: "exploration", QuickShards: 1, ThoroughShard: 1, Parallel: 1, QuickTimeout: 10 * time.Minute, ThorTimeout: 90 * time.Minute},
+	"C11": {Level: "exploration", CrashIsFinding: true, QuickShards: 1, ThoroughShard: 1, Parallel: 1, QuickTimeout: 10 * time.Minute, ThorTimeout: 90 * time.Minute},
 	"C12": {Level: "translation_validation", QuickShards: 1, ThoroughShard: 1, Parallel: 1, QuickTimeout: 15 * time.Minute, ThorTimeout: 120 * time.Minute},
 	"C13": {Level: "fault_enumeration", QuickShards: 1, ThoroughShard: 1, Parallel: 1, QuickTimeout: 10 * time.Minute, ThorTimeout: 90 * time.Minute},
 	"C14": {Level: "exploration", QuickShards: 1, ThoroughShard: 1, Parallel: 1, QuickTimeout: 8 * time.Minute, ThorTimeout: 60 * time.Minute},
@@ -279,6 +279,16 @@ func runShard(bin, id, tier string, seed int64, shard, nshards int, work string,
 	return so
 }
 
+// crashed reports whether the log of a workload process shows a crash of the Go runtime (an unrecovered panic or a
+// fatal error), as opposed to a process that was killed from outside.
+func crashed(path string) bool {
+	b, err := os.ReadFile(path)
+	if err != nil {
+		return false
+	}
+	return bytes.Contains(b, []byte("\npanic: ")) || bytes.HasPrefix(b, []byte("panic: ")) || bytes.Contains(b, []byte("fatal error: "))
+}
+
 func tail(path string, n int) string {
 	b, err := os.ReadFile(path)
 	if err != nil {
@@ -346,7 +356,7 @@ func run(id, tier string, seed int64, pc propCfg, replay string) int {
 	for i := range outcomes {
 		for attempt := 0; attempt < 2; attempt++ {
 			o := outcomes[i]
-			needs := (o.died && !pc.CrashIsFinding) || (o.res != nil && len(o.res.Inconclusive) > 0 && len(o.res.Violations) == 0)
+			needs := (o.died && !(pc.CrashIsFinding && !o.timeout && crashed(o.log))) || (o.res != nil && len(o.res.Inconclusive) > 0 && len(o.res.Violations) == 0)
 			if !needs {
 				break
 			}
@@ -369,7 +379,7 @@ func run(id, tier string, seed int64, pc propCfg, replay string) int {
 	exhaustive := true
 	for i, o := range outcomes {
 		if o.res == nil || o.died {
-			if pc.CrashIsFinding {
+			if pc.CrashIsFinding && !o.timeout && crashed(o.log) {
 				merged.ViolationCounts[id+"/child-died"]++
 				merged.Violations = append(merged.Violations, vk.Violation{Key: id + "/child-died", Detail: "workload process died:\n" + tail(o.log, 60), Replay: map[string]interface{}{"shard": i, "seed": seed, "tier": tier}})
 			} else {
